@@ -64,8 +64,13 @@ class Ctx:
                 lock = None
         r = subprocess.run(["cargo", "build"], cwd=HARNESS, env=env, stdout=subprocess.PIPE,
                            stderr=subprocess.STDOUT, text=True)
+        # a check run from /verif itself shares the harness binary with bin/seedtest (which rebuilds it from the seeded
+        # tree): it keeps the shared lock until the process ends; a scratch copy has its own binary and releases it now
         if lock is not None:
-            lock.close()
+            if ROOT == "/verif":
+                self._repo_lock = lock
+            else:
+                lock.close()
         if r.returncode != 0:
             log(r.stdout[-4000:])
             raise ToolError("harness build failed (does /repo still compile with feature verif-hooks?)")
@@ -130,28 +135,31 @@ class Ctx:
                 f.write(json.dumps(c, separators=(",", ":")) + "\n")
         t = time.time()
         shards = max(1, min(shards, len(cases)))
+        # the daemon engine starts one daemon per case and the library never closes the exit-event consumer it registers
+        # with a worker's epoll set (one descriptor per worker and daemon instance stays open for the life of the process):
+        # a process is given a bounded number of cases
+        per_proc = 2500 if engine == "daemon" else 10 ** 9
+        nparts = max(shards, -(-len(cases) // per_proc))
         parts = []
-        for k in range(shards):
+        for k in range(nparts):
             pcf, ptf = f"{cf}.{k}", f"{tf}.{k}"
             with open(pcf, "w") as f:
-                for c in cases[k::shards]:
+                for c in cases[k::nparts]:
                     f.write(json.dumps(c, separators=(",", ":")) + "\n")
             parts.append((pcf, ptf))
         henv = dict(os.environ, VH_FLUSH="1") if crash_is_data else dict(os.environ)
         def spawn(pcf, ptf):
             return subprocess.Popen([VH, engine, "--cases", pcf, "--out", ptf, "--seed", str(self.seed), "--tier", self.tier, *extra],
                                     stdout=subprocess.PIPE, stderr=subprocess.PIPE, text=True, preexec_fn=_die_with_parent, env=henv)
-        procs = [spawn(pcf, ptf) for pcf, ptf in parts]
-        last = ""
-        for k, p in enumerate(procs):
-            pcf, ptf = parts[k]
+        def run_part(part):
+            pcf, ptf = part
+            p = spawn(pcf, ptf)
             ncrash = 0
             while True:
                 try:
                     so, se = p.communicate(timeout=timeout)
                 except subprocess.TimeoutExpired:
-                    for q in procs:
-                        q.kill()
+                    p.kill()
                     raise ToolError(f"harness engine {engine} timed out")
                 if p.returncode < 0 and crash_is_data and ncrash < 200:
                     # killed by a signal: attribute it to the case whose `reset` was written last, continue after it
@@ -184,14 +192,17 @@ class Ctx:
                 with open(ptf + ".acc", "a") as acc:
                     acc.write(open(ptf).read())
                 os.replace(ptf + ".acc", ptf)
-            last = se.strip().splitlines()[-1] if se.strip() else ""
+            return se.strip().splitlines()[-1] if se.strip() else ""
+        with concurrent.futures.ThreadPoolExecutor(max_workers=shards) as ex:
+            lasts = list(ex.map(run_part, parts))
+        last = lasts[-1] if lasts else ""
         with open(tf, "w") as out:
             for pcf, ptf in parts:
                 with open(ptf) as f:
                     shutil.copyfileobj(f, out)
                 os.remove(ptf)
                 os.remove(pcf)
-        log(f"[vh] {engine}{tag}: {len(cases)} cases in {time.time()-t:.1f}s ({shards} shard(s)): {last}")
+        log(f"[vh] {engine}{tag}: {len(cases)} cases in {time.time()-t:.1f}s ({nparts} process(es), {shards} at a time): {last}")
         self.cases_by_engine[engine + tag] = (cf, cases)
         return tf
 
